@@ -391,3 +391,372 @@ Qed.
 
 Lemma sentm_snoc : forall tr i l, sentm (tr ++ [(i, l)]) = sentm tr ++ bcasts (label_outs l).
 Proof. intros. rewrite sentm_app. unfold sentm at 2. simpl. rewrite app_nil_r. reflexivity. Qed.
+
+Lemma xinv_step : forall c nt tr i l nt', wf_cfg c -> allhon c -> ninv c nt -> ninv c nt' -> ppjinv c nt ->
+  xinv c nt tr -> nstep c nt i l nt' -> label_nofail l = true ->
+  (forall m cm outs, l = LRecv m cm outs -> In m (sentm tr)) ->
+  xinv c nt' (tr ++ [(i, l)]).
+Proof.
+  intros c nt tr i l nt' Hwf Hall NI NI' PI [X1 X2 X3 X4 X5 X6 X7 X8 X9 X10 X11] Hs Hnf Hrecv.
+  inversion Hs as [nt0 i0 l0 s' Hgood Hstep Hdel]; subst nt0 i0 l0.
+  pose proof (step_fstep _ _ _ _ Hstep) as Hf.
+  assert (Hn : 1 <= nodes (pp c i)) by exact (proj1 Hwf).
+  pose proof (n_inv c nt NI i Hgood) as Hinv. pose proof (n_linv c nt NI i Hgood) as Hlin.
+  pose proof (fstep_effects _ _ _ _ _ _ Hn Hinv Hf) as [E1 [E2 [E3 [E4 [E5 [E6 [E7 [E8 _]]]]]]]].
+  assert (Hds : decided s' = false -> decided (nst nt i) = false).
+  { intro Hd. destruct (decided (nst nt i)) eqn:E; [destruct (E3 eq_refl); congruence | reflexivity]. }
+  assert (Hsrc : forall m, In m (bcasts (label_outs l)) -> src (main m) = i).
+  { intros m Hm. apply bcasts_In in Hm. destruct (bcast_shape _ _ _ _ _ _ Hf _ _ Hm) as [A _]. exact A. }
+  assert (Hsrcb : forall b, In b (bc_mains (label_outs l)) -> src b = i) by (intros b Hb; apply (E2 b Hb)).
+  subst nt'.
+  constructor; rewrite ?sentm_snoc; simpl.
+  - rewrite map_app, bcasts_mains, X1. reflexivity.
+  - intros m y Hm Hy. apply in_app_or in Hm. destruct Hm as [Hm|Hm]; [apply in_or_app; left; eauto|].
+    apply bcasts_In in Hm.
+    destruct (bcast_parts _ _ _ _ _ _ Hf _ _ Hm y Hy) as [A|[A|[A|[all [c0 [A1 A2]]]]]].
+    + pose proof (n_prepJ c _ NI' i Hgood y) as D. simpl in D. rewrite upd_same in D. exact (deliv_allhon _ _ _ Hall (D A)).
+    + apply in_or_app. left. exact (deliv_allhon _ _ _ Hall (n_qcm c nt NI i Hgood y A)).
+    + pose proof (n_buf c _ NI' i Hgood y) as D. simpl in D. rewrite upd_same in D. exact (deliv_allhon _ _ _ Hall (D A)).
+    + apply in_or_app. left. destruct (PI i Hgood all c0 A1) as [_ D]. exact (deliv_allhon _ _ _ Hall (D y A2)).
+  - intros j Hj m Hm. apply in_or_app. left. destruct (Nat.eq_dec j i) as [->|Hne].
+    + rewrite upd_same in Hm. destruct (bufmsgs_fstep _ _ _ _ _ _ Hf m Hm) as [A|[cm A]]; [eauto|].
+      destruct l; simpl in A; try discriminate A. inversion A; subst. eapply Hrecv. reflexivity.
+    + rewrite upd_other in Hm by assumption. eauto.
+  - (* DECIDED only from decided members *)
+    intros b Hb Ht. apply in_app_or in Hb. destruct Hb as [Hb|Hb].
+    + destruct (Nat.eq_dec (src b) i) as [E|Hne].
+      * rewrite E, upd_same. apply E3. rewrite <- E. auto.
+      * rewrite upd_other by assumption. auto.
+    + rewrite (Hsrcb b Hb), upd_same. rewrite <- bcasts_mains in Hb. apply in_map_iff in Hb. destruct Hb as [m [Em Hm]].
+      apply bcasts_In in Hm. destruct (bcast_shape _ _ _ _ _ _ Hf _ _ Hm) as [_ Hsh]. rewrite Em, Ht in Hsh.
+      apply E3. exact Hsh.
+  - (* rounds of broadcasts of undecided members *)
+    intros b Hb Hd. apply in_app_or in Hb. destruct Hb as [Hb|Hb].
+    + destruct (Nat.eq_dec (src b) i) as [E|Hne].
+      * rewrite E, upd_same in *. specialize (X5 b Hb). rewrite E in X5. specialize (X5 (Hds Hd)). specialize (E4 Hd). lia.
+      * rewrite upd_other in * by assumption. auto.
+    + rewrite (Hsrcb b Hb), upd_same in *. rewrite <- bcasts_mains in Hb. apply in_map_iff in Hb. destruct Hb as [m [Em Hm]].
+      apply bcasts_In in Hm. rewrite Em in Hm. destruct (mtype_eqb (ty b) Decided) eqn:Et.
+      * apply mtype_eqb_eq in Et. destruct (bcast_shape _ _ _ _ _ _ Hf _ _ Hm) as [_ Hsh]. rewrite Et in Hsh.
+        destruct (E3 Hsh) as [Hx _]. congruence.
+      * rewrite (bcast_round _ _ _ _ _ _ Hf _ _ Hm); [lia|]. intro Hx. apply mtype_eqb_eq in Hx. congruence.
+  - intros b Hb Ht. apply in_app_or in Hb. destruct Hb as [Hb|Hb]; [eauto|].
+    destruct (E8 b Hb Ht) as [R1 [R2 [R3 _]]]. pose proof (l_round1 _ _ _ Hlin R1). lia.
+  - assert (Hold : forall b b', In b (sent nt) -> In b' (bc_mains (label_outs l)) -> ty b = RoundChange -> ty b' = RoundChange ->
+                   src b = src b' -> rnd b = rnd b' -> False).
+    { intros b b' Hb Hb' Ht Ht' Hsr Hr. destruct (E8 b' Hb' Ht') as [R1 [R2 [R3 _]]].
+      assert (Ho : In b (own nt i)) by (apply filter_In; split; [exact Hb | apply Nat.eqb_eq; rewrite Hsr; auto]).
+      pose proof (l_rc _ _ _ Hlin b Ho Ht R1). lia. }
+    intros b b' Hb Hb' Ht Ht' Hsr Hr. apply in_app_or in Hb. apply in_app_or in Hb'.
+    destruct Hb as [Hb|Hb]; destruct Hb' as [Hb'|Hb'].
+    + eauto.
+    + exfalso. eapply Hold; eauto.
+    + exfalso. eapply (Hold b' b); eauto.
+    + eapply at_most_one; [exact E1 | exact Hb | exact Hb'].
+  - intros m Hm. apply in_app_or in Hm. destruct Hm as [Hm|Hm]; [auto|].
+    apply bcasts_In in Hm. destruct (bcast_shape_full _ _ _ _ _ _ Hn Hinv Hf _ _ Hm) as [_ Hsh]. destruct m. exact Hsh.
+  - intros j Hj. destruct (Nat.eq_dec j i) as [->|Hne].
+    + rewrite upd_same. eapply kinv_fstep; eauto.
+      * intro Hd. exact (l_round1 _ _ _ Hlin Hd).
+      * intros m cm Em. destruct (f_rc 1 (main m)) eqn:Ef; [|reflexivity]. exfalso. apply f_rc_inv in Ef. destruct Ef as [Et Er].
+        destruct l; simpl in Em; try discriminate Em. inversion Em; subst m0 c0.
+        destruct (Hdel m cm outs eq_refl) as [Hd _]. pose proof (deliv_allhon _ _ _ Hall Hd) as Hin.
+        pose proof (X6 _ Hin Et). lia.
+      * apply nofail_ev. exact Hnf.
+    + rewrite upd_other by assumption. apply kinv_other; [|auto]. intros m Hm. rewrite (Hsrc m Hm). simpl. auto.
+  - intros j Hj. destruct (Nat.eq_dec j i) as [->|Hne]; [rewrite upd_same | rewrite upd_other by assumption; auto].
+    eapply dedup_fact_fstep; eauto.
+  - intros j Hj. destruct (Nat.eq_dec j i) as [->|Hne]; [rewrite upd_same | rewrite upd_other by assumption; auto].
+    eapply cache_fact_fstep; eauto.
+Qed.
+
+Theorem creach_xinv : forall c nt tr, wf_cfg c -> allhon c -> creach c nt tr -> xinv c nt tr.
+Proof.
+  intros c nt tr Hwf Hall H. induction H as [|nt tr i l nt' H IH Hs Hnf Hm].
+  - apply xinv_init.
+  - destruct (creach_nreach _ _ _ H) as [Hr Hnft].
+    pose proof (nreach_ninv c nt tr Hwf Hr Hnft) as NI.
+    eapply xinv_step; eauto.
+    + eapply ninv_step; eauto.
+    + eapply nreach_ppjinv; eauto.
+Qed.
+
+(* ------------------------------------------------------------------------------------------ *)
+(* The hypotheses of good_round_decides derived for a reachable crash-only state               *)
+
+Section Derive.
+Variables (c : cfg) (nt : net) (tr : list (nat * label)) (R : list nat) (r : nat).
+Hypothesis Hwf : wf_cfg c.
+Hypothesis Hall : allhon c.
+Hypothesis Hreach : creach c nt tr.
+(* the members of R are members, in round r, running *)
+Hypothesis HR : forall i, In i R -> i < c_n c.
+Hypothesis HRst : forall i, In i R -> round (nst nt i) = r /\ started (nst nt i) = true /\ dead (nst nt i) = false.
+(* RESIDUAL ASSUMPTION: no member (in particular none of the stopped members outside R) has decided
+   or is in a round beyond r *)
+Hypothesis Hund : forall j, j < c_n c -> decided (nst nt j) = false /\ round (nst nt j) <= r.
+
+Notation P := (sentm tr).
+Notation ld := (c_leader c).
+
+Lemma d_ninv : ninv c nt.
+Proof. destruct (creach_nreach _ _ _ Hreach) as [A B]. exact (nreach_ninv c nt tr Hwf A B). Qed.
+
+Lemma d_xinv : xinv c nt tr.
+Proof. exact (creach_xinv c nt tr Hwf Hall Hreach). Qed.
+
+Lemma d_good : forall j, j < c_n c -> good c j.
+Proof. intros j Hj. split; [exact Hj | exact (Hall j Hj)]. Qed.
+
+Lemma d_main_sent : forall m, In m P -> In (main m) (sent nt).
+Proof. intros m Hm. rewrite <- (x_main _ _ _ d_xinv). apply in_map. exact Hm. Qed.
+
+Lemma d_sent_main : forall b, In b (sent nt) -> has_main P b.
+Proof.
+  intros b Hb. rewrite <- (x_main _ _ _ d_xinv) in Hb. apply in_map_iff in Hb. destruct Hb as [m [E Hm]]. exists m. auto.
+Qed.
+
+Lemma d_src : forall b, In b (sent nt) -> src b < c_n c.
+Proof. intros b Hb. exact (proj1 (n_sent c nt d_ninv b Hb)). Qed.
+
+(* every broadcast message is accepted by isJustified everywhere (NeverUnjust.v) *)
+Lemma d_justified : forall m, In m P -> forall j c', justified (pp c j) m c' = true.
+Proof.
+  intros m Hm j c'. unfold sentm in Hm. apply in_flat_map in Hm. destruct Hm as [[i l] [Hil Hm]]. simpl in Hm.
+  apply bcasts_In in Hm. destruct (creach_nreach _ _ _ Hreach) as [A B].
+  pose proof (honest_never_unjust c nt tr Hwf Hall A B i l (main m) (just m) Hil Hm j c') as H.
+  destruct m. exact H.
+Qed.
+
+Lemma d_deliv : forall l b, deliv c l b -> In b l.
+Proof. intros l b. apply deliv_allhon. exact Hall. Qed.
+
+Lemma nsrc_witness : forall f (l : list bmsg), 1 <= nsrc f l -> exists b, In b l /\ f b = true.
+Proof.
+  intros f l H. unfold nsrc in H. destruct (filter f l) as [|b t] eqn:E; [simpl in H; lia|].
+  assert (Hin : In b (filter f l)) by (rewrite E; left; reflexivity). apply filter_In in Hin. eauto.
+Qed.
+
+(* a PREPARE was sent in answer to a PRE-PREPARE of the round's leader for that value *)
+Lemma d_prepare_pp : forall b, In b (sent nt) -> ty b = Prepare ->
+  exists mp, In mp P /\ ty (main mp) = PrePrepare /\ rnd (main mp) = rnd b /\ src (main mp) = ld (rnd b)
+             /\ val (main mp) = val b.
+Proof.
+  intros b Hb Ht. destruct (in_split _ _ Hb) as [pre [post E]].
+  destruct (n_cpp c nt d_ninv pre b post E Ht) as [ppm [D [T [Rn [V S]]]]].
+  assert (Hin : In ppm (sent nt)) by (rewrite E; apply in_or_app; left; apply d_deliv; exact D).
+  destruct (d_sent_main ppm Hin) as [mp [M1 M2]]. exists mp. rewrite M2. auto.
+Qed.
+
+(* every message that carries a value of round r leads back to a PRE-PREPARE(r) of the leader *)
+Lemma d_carrier_pp : forall m, In m P -> carrier ld r (main m) = true ->
+  exists mp, In mp P /\ ty (main mp) = PrePrepare /\ rnd (main mp) = r /\ src (main mp) = ld r
+             /\ val (main mp) = val (main m).
+Proof.
+  intros m Hm Hc. pose proof (d_main_sent m Hm) as Hb. unfold carrier in Hc.
+  destruct (ty (main m)) eqn:Et; try discriminate Hc.
+  - apply andb_true_iff in Hc. destruct Hc as [C1 C2]. apply Nat.eqb_eq in C1, C2. exists m. auto.
+  - apply Nat.eqb_eq in Hc. destruct (d_prepare_pp _ Hb Et) as [mp H]. rewrite Hc in H. exists mp. exact H.
+  - apply Nat.eqb_eq in Hc. destruct (n_ccommit c nt d_ninv _ Hb Et) as [L [L1 L2]].
+    pose proof (quorum_pos (c_n c) (proj1 Hwf)) as Hq.
+    destruct (nsrc_witness _ L (Nat.le_trans _ _ _ Hq L2)) as [y [Y1 Y2]]. apply f_trv_inv in Y2. destruct Y2 as [Y2 [Y3 Y4]].
+    destruct (d_prepare_pp y (d_deliv _ _ (L1 y Y1)) Y2) as [mp H]. rewrite Y3, Y4, Hc in H. exists mp. exact H.
+  - exfalso. pose proof (x_dec _ _ _ d_xinv _ Hb Et) as Hd. destruct (Hund _ (d_src _ Hb)) as [Hu _]. congruence.
+Qed.
+
+Lemma d_pool_ok : pool_ok ld r P.
+Proof.
+  constructor.
+  - intros m Hm. pose proof (d_main_sent m Hm) as Hb. destruct (Hund _ (d_src _ Hb)) as [Hu Hr].
+    pose proof (x_rnd _ _ _ d_xinv _ Hb Hu). lia.
+  - intros m Hm Ht. exfalso. pose proof (d_main_sent m Hm) as Hb.
+    pose proof (x_dec _ _ _ d_xinv _ Hb Ht) as Hd. destruct (Hund _ (d_src _ Hb)) as [Hu _]. congruence.
+  - intros m m' Hm Hm' C C'.
+    destruct (d_carrier_pp m Hm C) as [mp [A1 [A2 [A3 [A4 A5]]]]].
+    destruct (d_carrier_pp m' Hm' C') as [mp' [B1 [B2 [B3 [B4 B5]]]]].
+    pose proof (d_main_sent mp A1) as Hb. pose proof (d_src _ Hb) as Hl. rewrite A4 in Hl.
+    destruct (Hund _ Hl) as [Hu _].
+    assert (E : mp = mp').
+    { apply (k_ppu _ _ _ (x_k _ _ _ d_xinv (ld r) (d_good _ Hl)) Hu); auto; simpl; congruence. }
+    subst mp'. congruence.
+  - intros m b Hm Hb Hp. apply d_sent_main. eapply (x_parts _ _ _ d_xinv); eauto.
+Qed.
+
+
+Lemma d_start_ok : forall i, In i R -> start_ok r P i (nst nt i).
+Proof.
+  intros i Hi. pose proof (HR i Hi) as Hlt. pose proof (d_good i Hlt) as Hg.
+  destruct (HRst i Hi) as [Hr [Hst Hdd]]. destruct (Hund i Hlt) as [Hu _].
+  pose proof (x_k _ _ _ d_xinv i Hg) as K. pose proof (x_dd _ _ _ d_xinv i Hg Hu) as D.
+  constructor; auto.
+  - intro Hx. rewrite <- Hr in Hx |- *. exact (k_jpp _ _ _ K Hu Hx).
+  - intro Hx. rewrite <- Hr in Hx |- *. exact (k_qp _ _ _ K Hu Hx).
+  - exact (proj1 (D r)).
+  - intro k. exact (proj2 (D k)).
+  - intros b Hb _. apply d_sent_main. apply d_deliv. exact (n_buf c nt d_ninv i Hg b Hb).
+Qed.
+
+
+Definition g_of : gcfg := mkg (nst nt) P (fun _ => []) [].
+
+Lemma d_norc1 : norc 1 g_of.
+Proof.
+  intros m Hm Ht Hr. simpl in Hm. pose proof (x_rc2 _ _ _ d_xinv _ (d_main_sent m Hm) Ht). lia.
+Qed.
+
+Lemma d_pp_form : forall m, In m P -> ty (main m) = PrePrepare ->
+  m = mkm (mk PrePrepare (ld (rnd (main m))) (rnd (main m)) (val (main m)) 0 0) (just m) /\ val (main m) <> 0%N.
+Proof.
+  intros m Hm Ht. pose proof (x_shape _ _ _ d_xinv m Hm) as Hs. unfold shape in Hs. rewrite Ht in Hs.
+  destruct Hs as [S1 [S2 [S3 _]]]. split.
+  - destruct m as [[t s0 r0 v0 p0 w0] j]. simpl in *. subst. reflexivity.
+  - pose proof (d_justified m Hm 0 0) as Hj. unfold justified in Hj. rewrite Ht in Hj. unfold justified_preprepare in Hj.
+    rewrite !andb_true_iff in Hj. destruct Hj as [[_ Hv] _]. apply negb_true_iff, N.eqb_neq in Hv. exact Hv.
+Qed.
+
+Lemma d_case_r1 : r = 1 -> (exists m, In m P /\ ty (main m) = PrePrepare /\ rnd (main m) = 1) ->
+  exists v J, v <> 0%N /\ In (mkm (mk PrePrepare (ld 1) 1 v 0 0) J) P.
+Proof.
+  intros _ [m [Hm [Ht Hr]]]. destruct (d_pp_form m Hm Ht) as [E Hv]. rewrite Hr in E.
+  exists (val (main m)), (just m). split; [exact Hv | rewrite <- E; exact Hm].
+Qed.
+
+
+(* well-formedness of every PREPARE part around *)
+Lemma d_prep_wf : forall b, In b (sent nt) -> ty b = Prepare -> 1 <= rnd b /\ val b <> 0%N.
+Proof.
+  intros b Hb Ht. split.
+  - pose proof (n_linv c nt d_ninv (src b) (n_sent c nt d_ninv b Hb)) as L.
+    exact (l_prep_pos _ _ _ L b (own_intro nt b Hb) Ht).
+  - exact (sent_prepare_nonzero c nt d_ninv b Hb Ht).
+Qed.
+
+Section Case2.
+Hypothesis HlR : In (ld r) R.
+Hypothesis Hinp : input (nst nt (ld r)) <> 0%N.
+Hypothesis Hrcs : forall i, In i R -> exists m, In m P /\ f_rc r (main m) = true /\ src (main m) = i.
+
+Lemma d_r2 : 2 <= r.
+Proof.
+  destruct (Hrcs _ HlR) as [m [M1 [M2 _]]]. apply f_rc_inv in M2. destruct M2 as [T Rn].
+  pose proof (x_rc2 _ _ _ d_xinv _ (d_main_sent m M1) T). lia.
+Qed.
+
+Lemma d_rcs : rcs_in_pool (c_n c) (c_fifo c) ld r R P.
+Proof.
+  intros i Hi. destruct (Hrcs i Hi) as [m [M1 [M2 M3]]]. exists m. repeat split; auto.
+  pose proof (d_justified m M1 (ld r) 0) as Hj. apply f_rc_inv in M2. destruct M2 as [T _].
+  unfold justified in Hj. rewrite T in Hj. exact Hj.
+Qed.
+
+Section Fresh.
+Hypothesis Hnd : is_dup (nst nt (ld r)) QRC r = false.
+
+Lemma d_nocar : forall m, In m P -> carrier ld r (main m) = false.
+Proof.
+  intros m Hm. destruct (carrier ld r (main m)) eqn:C; [|reflexivity]. exfalso.
+  destruct (d_carrier_pp m Hm C) as [mp [A1 [A2 [A3 [A4 A5]]]]].
+  pose proof (HR _ HlR) as Hl. destruct (Hund _ Hl) as [Hu _]. destruct (HRst _ HlR) as [Hr _].
+  pose proof (k_pp _ _ _ (x_k _ _ _ d_xinv (ld r) (d_good _ Hl)) Hu mp A1 A4 A2) as Hk.
+  rewrite A3 in Hk. unfold pp_ok, pp_cur in Hk. rewrite Hr in Hk. pose proof d_r2.
+  destruct Hk as [Hk|[_ [[Hk _]|[Hk _]]]]; [lia | lia | congruence].
+Qed.
+
+Lemma d_nest : forall m y, In m P -> In y (just m) -> f_rc r y = false.
+Proof.
+  intros m y Hm Hy. destruct (f_rc r y) eqn:F; [|reflexivity]. exfalso. apply f_rc_inv in F. destruct F as [Ty Ry].
+  pose proof (x_shape _ _ _ d_xinv m Hm) as Hs. unfold shape in Hs. pose proof (d_nocar m Hm) as Hc. unfold carrier in Hc.
+  destruct (ty (main m)) eqn:Et.
+  - destruct Hs as [_ [_ [S3 S4]]]. rewrite (S4 y Hy Ty) in Ry. rewrite Ry, S3, Ry, !Nat.eqb_refl in Hc. discriminate.
+  - destruct Hs as [S1 _]. rewrite S1 in Hy. destruct Hy.
+  - destruct Hs as [S1 _]. rewrite S1 in Hy. destruct Hy.
+  - rewrite (Hs y Hy) in Ty. discriminate.
+  - discriminate.
+Qed.
+
+Lemma d_pool_fresh : pool_fresh ld r P.
+Proof.
+  constructor.
+  - exact d_nocar.
+  - intros m b Hm Hb Ht. apply d_prep_wf; [|exact Ht]. destruct Hb as [<-|Hb]; [apply d_main_sent; exact Hm|].
+    eapply (x_parts _ _ _ d_xinv); eauto.
+  - exact d_nest.
+  - intros m m' Hm Hm' F F' Hs. apply f_rc_inv in F, F'. destruct F as [T Rn]. destruct F' as [T' Rn'].
+    assert (E : main m = main m').
+    { apply (x_rcu _ _ _ d_xinv); auto using d_main_sent. congruence. }
+    rewrite E. auto.
+Qed.
+
+Lemma d_buf_fresh : buf_fresh (c_n c) (c_fifo c) ld r P (nst nt (ld r)).
+Proof.
+  pose proof (HR _ HlR) as Hl. pose proof (d_good _ Hl) as Hg.
+  constructor.
+  - intros b Hb Ht. apply d_prep_wf; [|exact Ht]. apply d_deliv. exact (n_buf c nt d_ninv _ Hg b Hb).
+  - intros m y Hm Hy. apply (d_nest m y); [|exact Hy]. exact (x_buf _ _ _ d_xinv _ Hg m Hm).
+  - intros m Hm F. pose proof (x_buf _ _ _ d_xinv _ Hg m Hm) as HmP. split; [|exists m; auto].
+    pose proof (d_justified m HmP (ld r) 0) as Hj. apply f_rc_inv in F. destruct F as [T _].
+    unfold justified in Hj. rewrite T in Hj. exact Hj.
+Qed.
+
+End Fresh.
+
+Lemma d_leader_ok : leader_ok (c_n c) (c_fifo c) ld r P (nst nt (ld r)).
+Proof.
+  pose proof (HR _ HlR) as Hl. pose proof (d_good _ Hl) as Hg.
+  destruct (Hund _ Hl) as [Hu _]. destruct (HRst _ HlR) as [Hr [_ Hdd]]. pose proof d_r2 as Hr2.
+  constructor.
+  - exact Hinp.
+  - exact (n_cfr c nt d_ninv _ Hg).
+  - intro Hnd. split; [|split; [exact (d_pool_fresh Hnd) | exact (d_buf_fresh Hnd)]].
+    destruct (x_cf _ _ _ d_xinv _ Hg) as [_ Hc]. rewrite Hr in Hc.
+    destruct (ppj (nst nt (ld r))); [reflexivity | lia | congruence].
+  - intro Hd. assert (Hd' : is_dup (nst nt (ld r)) QRC (round (nst nt (ld r))) = true) by (rewrite Hr; exact Hd).
+    destruct (k_qrc _ _ _ (x_k _ _ _ d_xinv _ Hg) Hu Hdd Hd' (or_introl Hinp)) as [m [M1 [M2 [M3 M4]]]].
+    exists m. split; [exact M1|]. split; [exact M3|]. split; [congruence|]. intros i c'. exact (d_justified m M1 i c').
+Qed.
+
+End Case2.
+
+End Derive.
+
+(* ------------------------------------------------------------------------------------------ *)
+(* good_round_decides from reachability in Net.v                                               *)
+
+Theorem good_round_decides_from_net : forall c nt tr R r g,
+  wf_cfg c -> allhon c -> creach c nt tr ->
+  NoDup R -> quorum (c_n c) <= length R -> (forall i, In i R -> i < c_n c) -> In (c_leader c r) R ->
+  (forall i, In i R -> round (nst nt i) = r /\ started (nst nt i) = true /\ dead (nst nt i) = false) ->
+  (forall j, j < c_n c -> decided (nst nt j) = false /\ round (nst nt j) <= r) ->
+  ((r = 1 /\ exists m, In m (sentm tr) /\ ty (main m) = PrePrepare /\ rnd (main m) = 1)
+   \/ (input (nst nt (c_leader c r)) <> 0%N
+       /\ forall i, In i R -> exists m, In m (sentm tr) /\ f_rc r (main m) = true /\ src (main m) = i)) ->
+  gsteps (c_n c) (c_fifo c) (c_leader c) R (g_of nt tr) g -> delivered_all R g ->
+  fifo_ok (c_fifo c) R (g_of nt tr) g ->
+  exists v, (forall i, In i R -> exists k, In (i, v, k) (gdecs g))
+            /\ (forall i x k, In (i, x, k) (gdecs g) -> x = v /\ k = r).
+Proof.
+  intros c nt tr R r g Hwf Hall Hreach Hnd Hq HR HlR HRst Hund Hcase Hsteps Hdel Hfifo.
+  apply (good_round_decides (c_n c) (c_fifo c) (c_leader c) R r (g_of nt tr) g); auto.
+  - exact (proj1 Hwf).
+  - simpl. eapply d_pool_ok; eauto.
+  - intros i Hi. simpl. eapply d_start_ok; eauto.
+  - destruct Hcase as [[E1 Hpp]|[Hinp Hrcs]].
+    + left. split; [exact E1|]. subst r. split; [eapply d_norc1; eauto|]. simpl. eapply d_case_r1; eauto.
+    + right. simpl. split; [eapply d_leader_ok; eauto | eapply d_rcs; eauto].
+Qed.
+
+(* a reading of the invariant of independent interest: a member that has not decided has broadcast
+   at most one PRE-PREPARE per round (crash-only executions, any n) *)
+Theorem one_preprepare_per_round : forall c nt tr, wf_cfg c -> allhon c -> creach c nt tr ->
+  forall m m', In m (sentm tr) -> In m' (sentm tr) ->
+  ty (main m) = PrePrepare -> ty (main m') = PrePrepare ->
+  src (main m) = src (main m') -> rnd (main m) = rnd (main m') ->
+  decided (nst nt (src (main m))) = false -> m = m'.
+Proof.
+  intros c nt tr Hwf Hall Hr m m' Hm Hm' Ht Ht' Hs Hrn Hd.
+  pose proof (creach_xinv c nt tr Hwf Hall Hr) as X.
+  destruct (creach_nreach _ _ _ Hr) as [A B]. pose proof (nreach_ninv c nt tr Hwf A B) as NI.
+  assert (Hb : In (main m) (sent nt)) by (rewrite <- (x_main _ _ _ X); apply in_map; exact Hm).
+  pose proof (n_sent c nt NI _ Hb) as Hg.
+  apply (k_ppu _ _ _ (x_k _ _ _ X _ Hg) Hd); auto; simpl; congruence.
+Qed.
